@@ -66,9 +66,11 @@ public:
         assert (this != chain.load(std::memory_order_relaxed));
         //release memory order because we need to other thread to see change of _next
         //this is last operation of this thread with awaiter
-        while (!chain.compare_exchange_weak(_next, this, std::memory_order_release));
-
-        assert (_next != this);
+        while (!chain.compare_exchange_weak(_next, this, std::memory_order_release)) {
+            //check before next try: once the awaiter is published, other thread
+            //can resume it (and destroy it), so it can't be inspected after the loop
+            assert (_next != this);
+        }
     }
     ///releases chain atomicaly
     /**
